@@ -478,6 +478,11 @@ impl HalfConnection {
         }
     }
 
+    /// (base id, next id) of the packet send window (read-only)
+    pub fn verif_packet_window(&self) -> (u32, u32) {
+        (self.packet_sender.base_id(), self.packet_sender.next_id())
+    }
+
     /// (acked, nonce, rate_limited) of a frame still held in the sent-frame log (read-only)
     pub fn verif_sent_frame(&self, frame_id: u32) -> Option<(bool, bool, bool)> {
         self.frame_queue.verif_sent_frame(frame_id)
